@@ -425,8 +425,10 @@ def register(M):
                 return args[1]
             raise AbsRaise(ExcVal('StopIteration'), node)
         if isinstance(it, GenResult):
-            # a generator function's result (its items were produced eagerly): consumed from the front
+            # a generator function's result: consumed from the front (a lazy one produces the item now)
             pos = getattr(it, 'pos', 0)
+            if pos >= len(it.items) and hasattr(it, 'pull'):
+                it.pull(node)
             if pos < len(it.items):
                 it.pos = pos + 1
                 return it.items[pos]
